@@ -280,6 +280,46 @@ def run(prog, chk):
                 r3.violation(fn.file, fname, node.get("l"), "callback-args:" + key,
                              "unexpected callback arguments: code %s, line %s" % (show(a0)[:40], show(a1)[:30]))
 
+    r3b = chk.rule("R3b-callback-text-inside-window", "a text argument of the form `next_char - k` is passed only where at least one "
+                   "character has been scanned since next_char was last set back to the start of the window (text_start / buffer): "
+                   "what lies before the window start may have been discarded", primary=False, floor=10)
+    n_txt = 0
+    for fname, it in sorted(res.items()):
+        fn = prog.fn(fname)
+        resets, advances = [], []
+        for (b, i, r, x) in fn.eval_sites():
+            if x.get("k") == "asg" and (path(strip(x.get("lhs"))) or "").endswith("next_char"):
+                rp = path(strip(x.get("rhs"))) or ""
+                if x.get("op") == "=" and (rp.endswith("text_start") or rp.endswith("->buffer")):
+                    resets.append((b.id, i))
+                elif x.get("op") == "+=" and (const(x.get("rhs")) or 0) > 0:
+                    advances.append((b.id, i))
+            elif x.get("k") == "un" and x.get("op") in ("post++", "pre++") and (path(strip(x.get("e"))) or "").endswith("next_char"):
+                advances.append((b.id, i))
+            elif x.get("k") == "call" and (x.get("callee") or "").startswith("scan_"):
+                advances.append((b.id, i))
+        mf = cfgq.MustFact(fn, gen_sites=advances, kill_sites=resets, entry_value=True) if resets else None
+        for sid, (kind, node) in sorted(it.sites.items()):
+            if kind != "error_callback" or len(node.get("args", [])) < 4:
+                continue
+            a3 = strip(node["args"][3])
+            if not (isinstance(a3, dict) and a3.get("k") == "bin" and a3.get("op") == "-" and (path(strip(a3.get("lhs"))) or "").endswith("next_char")
+                    and (const(a3.get("rhs")) or 0) > 0):
+                continue
+            n_txt += 1
+            key = "%s:text=%s@L%s" % (fname, show(a3)[:30], node.get("l"))
+            site = next(((b.id, i) for (b, i, r, x) in fn.eval_sites("call") if x.get("id") == node.get("id")), None)
+            if mf is None or site is None or mf.at(site[0], site[1]):
+                r3b.ok(key, "no reset of next_char to the window start reaches this report without a scanned character in between")
+            else:
+                r3b.violation(fn.file, fname, node.get("l"), "callback-text-before-window:%s" % fname,
+                              "the error callback is given `%s` as text, but on a path to L%s next_char has just been set back to the "
+                              "start of the window (text_start) with nothing scanned since: the pointer lies before the window - "
+                              "before the buffer itself when the buffer was reset - and is not readable for the stated length"
+                              % (show(a3), node.get("l")))
+    if n_txt < 10:
+        raise Broken("only %d callback sites with a `next_char - k` text argument found" % n_txt)
+
     r4 = chk.rule("R4-termination-and-read-bounds", "no loop of the parser units is idempotent (call-free, without loop-carried state: "
                   "such a loop cannot make progress once entered); no pointer into the read buffer is dereferenced under `<=` "
                   "against an exclusive end", primary=False, floor=60)
